@@ -13,59 +13,82 @@
 (* language id, removes it again and publishes nothing useful (empty diagnostics).     *)
 (* VersionGuard = FALSE is the code as it is: whichever handler reaches `set` last     *)
 (* wins, whatever order the client sent the messages in.                               *)
+(*   didSave             :  the editor has written its buffer to disk; the server       *)
+(*                          re-reads the file, then cfg -> load -> set -> pub           *)
+(*   add-word command /                                                                *)
+(*   didChangeConfiguration: re-process the document.  RefreshFromMemory = TRUE: from    *)
+(*                          the text held in the document state (the repaired code);    *)
+(*                          FALSE: from the file on disk, as it was - an unsaved buffer *)
+(*                          is then replaced by the stale file contents.                *)
 EXTENDS Naturals, Sequences, FiniteSets, TLC
 
-CONSTANTS Urls, Texts, MaxMsgs, MaxInFlight, VersionGuard
+CONSTANTS Urls, Texts, MaxMsgs, MaxInFlight, VersionGuard, RefreshFromMemory
 
 VARIABLES clientText,   \* newest text the client sent per url ("none": not open)
           docText,      \* server's document state per url ("none": no entry); with the version it came from
           published,    \* what the last publishDiagnostics for the url was computed from ("empty" | text)
+          disk,         \* contents of the file behind each url ("none": never saved)
           hs,           \* in-flight handlers: sequence of [kind, u, t, ver, pc]
           sent,         \* number of messages sent
           overlapped    \* history flag: two handlers for the same url were in flight together
-lsvars == <<clientText, docText, published, hs, sent, overlapped>>
+lsvars == <<clientText, docText, published, disk, hs, sent, overlapped>>
 
 LInit == /\ clientText = [u \in Urls |-> "none"] /\ docText = [u \in Urls |-> [t |-> "none", v |-> 0]]
-         /\ published = [u \in Urls |-> "empty"] /\ hs = <<>> /\ sent = 0 /\ overlapped = FALSE
+         /\ published = [u \in Urls |-> "empty"] /\ disk = [u \in Urls |-> "none"]
+         /\ hs = <<>> /\ sent = 0 /\ overlapped = FALSE
 
 SameUrlInFlight(u) == \E i \in DOMAIN hs : hs[i].u = u
 Start(h) == /\ sent < MaxMsgs /\ Len(hs) < MaxInFlight
             /\ hs' = Append(hs, h) /\ sent' = sent + 1
             /\ overlapped' = (overlapped \/ SameUrlInFlight(h.u))
 SendOpen(u, t) == clientText[u] = "none" /\ Start([kind |-> "open", u |-> u, t |-> t, ver |-> sent + 1, pc |-> "cfg"])
-                  /\ clientText' = [clientText EXCEPT ![u] = t] /\ UNCHANGED <<docText, published>>
+                  /\ clientText' = [clientText EXCEPT ![u] = t] /\ UNCHANGED <<docText, published, disk>>
 SendChange(u, t) == clientText[u] # "none" /\ Start([kind |-> "change", u |-> u, t |-> t, ver |-> sent + 1, pc |-> "cfg"])
-                    /\ clientText' = [clientText EXCEPT ![u] = t] /\ UNCHANGED <<docText, published>>
+                    /\ clientText' = [clientText EXCEPT ![u] = t] /\ UNCHANGED <<docText, published, disk>>
+\* the editor saves its buffer, then notifies
+SendSave(u) == clientText[u] # "none" /\ Start([kind |-> "save", u |-> u, t |-> "disk", ver |-> sent + 1, pc |-> "read"])
+               /\ disk' = [disk EXCEPT ![u] = clientText[u]] /\ UNCHANGED <<clientText, docText, published>>
+\* an add-to-dictionary command or a configuration change: the document is re-processed
+SendRefresh(u) == clientText[u] # "none" /\ Start([kind |-> "refresh", u |-> u, t |-> "?", ver |-> sent + 1, pc |-> "read"])
+                  /\ UNCHANGED <<clientText, docText, published, disk>>
 SendClose(u) == clientText[u] # "none" /\ Start([kind |-> "close", u |-> u, t |-> "none", ver |-> sent + 1, pc |-> "close"])
-                /\ clientText' = [clientText EXCEPT ![u] = "none"] /\ UNCHANGED <<docText, published>>
+                /\ clientText' = [clientText EXCEPT ![u] = "none"] /\ UNCHANGED <<docText, published, disk>>
 
 Remove(i) == SubSeq(hs, 1, i - 1) \o SubSeq(hs, i + 1, Len(hs))
 Advance(i, pc) == hs' = [hs EXCEPT ![i].pc = pc]
 \* the configuration answer arrives / the dictionaries are loaded
-StepCfg(i) == hs[i].pc = "cfg" /\ Advance(i, "load") /\ UNCHANGED <<clientText, docText, published, sent, overlapped>>
-StepLoad(i) == hs[i].pc = "load" /\ Advance(i, "set") /\ UNCHANGED <<clientText, docText, published, sent, overlapped>>
+\* where the text to re-process comes from
+StepRead(i) ==
+  /\ hs[i].pc = "read"
+  /\ LET h == hs[i]
+         fromDisk == h.kind = "save" \/ ~RefreshFromMemory \/ docText[h.u].t = "none"
+         t == IF fromDisk THEN disk[h.u] ELSE docText[h.u].t
+     IN hs' = [hs EXCEPT ![i].pc = (IF t = "none" THEN "pub" ELSE "cfg"), ![i].t = t]
+  /\ UNCHANGED <<clientText, docText, published, disk, sent, overlapped>>
+StepCfg(i) == hs[i].pc = "cfg" /\ Advance(i, "load") /\ UNCHANGED <<clientText, docText, published, disk, sent, overlapped>>
+StepLoad(i) == hs[i].pc = "load" /\ Advance(i, "set") /\ UNCHANGED <<clientText, docText, published, disk, sent, overlapped>>
 \* update_document under the doc_state lock
 StepSet(i) ==
   /\ hs[i].pc = "set" /\ Advance(i, "pub")
   /\ LET h == hs[i] cur == docText[h.u] IN
-     docText' = IF h.kind = "change" /\ cur.t = "none" THEN docText                \* no language id: entry dropped again
+     docText' = IF h.kind # "open" /\ cur.t = "none" THEN docText                  \* no language id: entry dropped again
                 ELSE IF VersionGuard /\ cur.v > h.ver THEN docText                   \* (hypothetical) stale update ignored
                 ELSE [docText EXCEPT ![h.u] = [t |-> h.t, v |-> h.ver]]
-  /\ UNCHANGED <<clientText, published, sent, overlapped>>
+  /\ UNCHANGED <<clientText, published, disk, sent, overlapped>>
 \* publish_diagnostics: lints whatever the document state holds at this moment
 StepPub(i) ==
   /\ hs[i].pc = "pub" /\ hs' = Remove(i)
   /\ published' = [published EXCEPT ![hs[i].u] = IF docText[hs[i].u].t = "none" THEN "empty" ELSE docText[hs[i].u].t]
-  /\ UNCHANGED <<clientText, docText, sent, overlapped>>
+  /\ UNCHANGED <<clientText, docText, disk, sent, overlapped>>
 StepClose(i) ==
   /\ hs[i].pc = "close" /\ hs' = Remove(i)
   /\ docText' = [docText EXCEPT ![hs[i].u] = [t |-> "none", v |-> 0]]
   /\ published' = [published EXCEPT ![hs[i].u] = "empty"]
-  /\ UNCHANGED <<clientText, sent, overlapped>>
+  /\ UNCHANGED <<clientText, disk, sent, overlapped>>
 
 LNext == \/ \E u \in Urls, t \in Texts : SendOpen(u, t) \/ SendChange(u, t)
-         \/ \E u \in Urls : SendClose(u)
-         \/ \E i \in DOMAIN hs : StepCfg(i) \/ StepLoad(i) \/ StepSet(i) \/ StepPub(i) \/ StepClose(i)
+         \/ \E u \in Urls : SendClose(u) \/ SendSave(u) \/ SendRefresh(u)
+         \/ \E i \in DOMAIN hs : StepRead(i) \/ StepCfg(i) \/ StepLoad(i) \/ StepSet(i) \/ StepPub(i) \/ StepClose(i)
 
 Quiescent == hs = <<>>
 \* C09: once everything has been processed, the last word on each document is its newest text
@@ -73,4 +96,10 @@ LastWord == Quiescent => \A u \in Urls :
    published[u] = (IF clientText[u] = "none" THEN "empty" ELSE clientText[u])
 \* ... which the code guarantees only when handlers for one document never overlap
 LastWordUnlessOverlapped == LastWord \/ overlapped
+
+\* Liveness: every message is eventually handled (checked without a state constraint, under weak
+\* fairness of the handler steps): the server always comes to rest
+HandlerSteps == \E i \in DOMAIN hs : StepRead(i) \/ StepCfg(i) \/ StepLoad(i) \/ StepSet(i) \/ StepPub(i) \/ StepClose(i)
+LSpec == LInit /\ [][LNext]_lsvars /\ WF_lsvars(HandlerSteps)
+ComesToRest == []<>(hs = <<>>)
 =============================================================================
